@@ -28,6 +28,13 @@ HAND = [
     "{averyveryverylongfieldname1: 'valuevaluevaluevalue', averyveryverylongfieldname2: 'valuevaluevaluevalue', averyveryverylongfieldname3: 1}",
     "[1000000, 2000000, 3000000, 4000000, 5000000, 6000000, 7000000, 8000000, 9000000, 10000000, 11000000, 12000000, 13000000]",
     "f(aaaaaaaaaaaaaaaaaaaa, bbbbbbbbbbbbbbbbbbbbbbbb, cccccccccccccccccccccc, dddddddddddddddddddddd, eeeeeeeeeeeeeeeeeeee)",
+    # wider than the line when written on one line: array, object, call, parameters - alone and as a field value
+    "{ports: [8080, 8081, 8082, 8083, 8084, 8085, 8086, 8087, 8088, 8089, 8090, 8091, 8092, 8093, 8094, 8095, 8096, 8097]}",
+    "{settings: {alpha_setting_name: 'value one', beta_setting_name: 'value two', gamma_setting_name: 'value three', delta: 4}}",
+    "{call: someFunction(argumentNumberOne, argumentNumberTwo, argumentNumberThree, argumentNumberFour, argumentNumberFive)}",
+    "{outer: {inner: {ports: [8080, 8081, 8082, 8083, 8084, 8085, 8086, 8087, 8088, 8089, 8090, 8091, 8092, 8093, 8094]}}}",
+    "local f(parameterNumberOne, parameterNumberTwo=2, parameterNumberThree=3, parameterNumberFour=4, parameterNumberFive=5) = 1; f(1)",
+    "[[1000001, 1000002, 1000003, 1000004, 1000005, 1000006, 1000007, 1000008, 1000009, 1000010, 1000011, 1000012, 1000013]]",
     "local x = {\n  a: 1,\n\n  b: 2,\n};\nx", "[\n  1,\n  2,\n]", "{\n  a: 1 }", "[1,\n 2]", "{ a: 1,\n b: 2 }", "f(\n 1, 2)", "local a = 1;\n\n\nlocal b = 2;\n\na + b",
     "f(/* c */)", "f(\n  // c\n)", "{[k]: 1 for k in x if k for j in y}", "\"multi\nline\n\ttab\"", "[@'a\nb', 1]", "1 # tab\there\n",
     "-(1)", "- -1", "!(!true)", "(1)", "((1 + 2)) * 3", "1 - (2 - 3)", "(1 + 2) + 3", "a[1]", "a['b']", "a.b", "a[b].c", "x { a: 1 }.a", "(x) { a: 1 }",
